@@ -1,5 +1,6 @@
 """C05 - status, dry-run and run agree, and the two previews change nothing (effect closure + one shared decision)."""
 import ast
+import re
 
 from ..consteval import enum_members
 from ..index import FuncInfo, dotted, walk_no_nested, loc
@@ -36,7 +37,7 @@ def preview_closure(ctx, r, root, bindings, label):
             msg = f"`gwf {label}` can start a process outside backends.utils.call ({e.detail} at {e.where})"
         if msg:
             n_bad += 1
-            r.violation(f"{con}::{e.kind}:{e.finfo.qual}", msg + "; call chain: " + " -> ".join(c.split(":")[1] for c in e.chain[-5:]), e.where,
+            r.violation(f"{con}::{e.kind}:{e.finfo.module.relpath}:{e.finfo.qual}", msg + "; call chain: " + " -> ".join(c.split(":")[1] for c in e.chain[-5:]), e.where,
                         [" -> ".join(e.chain)])
     for u in unresolved:
         r.violation(f"{con}::unresolved", f"a call through an unknown callable cannot be bounded: {u}", u.split(" ")[0])
@@ -317,6 +318,12 @@ def run(ctx):
     report_witness(r_st, "src/gwf/plugins/status.py::status::witness-project", "src/gwf/plugins/status.py:1", wst, "restrictions of the one table; no submit, cancel, hash record, delete or write")
     if not wst[1] and not wrun[1] and wst[2] is None and wrun[2] is None:
         both = (wst[0] + wrun[0], [], None)
-        ctx.reconcile(rules, lambda c: any(k in c for k in ("plugins/status.py", "plugins/run.py", "scheduling.py::submit_workflow", "scheduling.py::get_status_map",
-                                                             "scheduling.py::_submit")),
+        def pred(c):
+            # the evaluated commands replace the two state stores, the backend and the filesystem snapshot by recording stubs: an effect inside those
+            # classes is beyond what the evaluation can see, so the structural verdict on it stands
+            m = re.search(r"\]::[A-Z_]+:(src/[^:]+):", c)
+            if m and not m.group(1).startswith(("src/gwf/plugins/", "src/gwf/scheduling.py", "src/gwf/filtering.py")):
+                return False
+            return any(k in c for k in ("plugins/status.py", "plugins/run.py", "scheduling.py::submit_workflow", "scheduling.py::get_status_map", "scheduling.py::_submit"))
+        ctx.reconcile(rules, pred,
                       both, "src/gwf/plugins::status+run", "src/gwf/plugins/status.py:1")
